@@ -207,6 +207,11 @@ func (s *icmpDriver) handleProbeLayers(parser *packets.FrameParser) (*common.Pro
 			if parser.ICMP4.Id != s.echoID {
 				return nil, &common.BadPacketError{Err: fmt.Errorf("mismatched echo ID")}
 			}
+			// an echo reply proves arrival only if the target itself sent it
+			if ipPair.SrcAddr.Compare(s.params.Target) != 0 {
+				log.Tracef("icmpDriver ignored echo reply from another host: expected=%s, actual=%s", s.params.Target, ipPair.SrcAddr)
+				return nil, common.ErrPacketDidNotMatchTraceroute
+			}
 			rtt, err := s.getRTTFromRelSeq(parser.ICMP4.Seq)
 			if err != nil {
 				return nil, &common.BadPacketError{Err: fmt.Errorf("icmpDriver failed to get RTT: %w", err)}
@@ -267,6 +272,11 @@ func (s *icmpDriver) handleProbeLayers(parser *packets.FrameParser) (*common.Pro
 			seq := binary.BigEndian.Uint16(payload[2:4])
 			if id != s.echoID {
 				return nil, &common.BadPacketError{Err: fmt.Errorf("mismatched echo ID")}
+			}
+			// an echo reply proves arrival only if the target itself sent it
+			if ipPair.SrcAddr.Compare(s.params.Target) != 0 {
+				log.Tracef("icmpDriver ignored echo reply from another host: expected=%s, actual=%s", s.params.Target, ipPair.SrcAddr)
+				return nil, common.ErrPacketDidNotMatchTraceroute
 			}
 			rtt, err := s.getRTTFromRelSeq(seq)
 			if err != nil {
